@@ -1,2 +1,3 @@
 -- family proxy: C03 C05 C06 C17.  Everything listed here must build: it is part of `lake build`.
 import Thanos.Driver.Proxy
+import Thanos.Props.C05
